@@ -91,7 +91,8 @@ def install():
 			orig_decompress(self)
 		except Exception as exc:
 			if ce is not None and raw is not None:
-				REC.decode[(ce, raw)] = classify(exc)
+				from httoop.exceptions import DecodeError
+				REC.decode[(ce, raw)] = ('decodeerror',) if isinstance(exc, (DecodeError, UnicodeDecodeError)) else classify(exc)
 			raise
 		if ce is not None and raw is not None:
 			try:
@@ -273,6 +274,8 @@ def _hdrs(h):
 
 
 def _res(v, ok, prefix):
+	if v[0] == 'decodeerror':
+		return 'DcDecodeError'
 	if v[0] == 'err':
 		return '(%sErr %s)' % (prefix, N(v[1]))
 	if v[0] == 'escape':
